@@ -118,7 +118,23 @@ def _run_sched(desc):
             sh.violation("compute_geometry[vrt build]:differs-from-reference", case, {})
         for T, sched in bad2:
             sh.violation("compute_geometry:schedule-dependent:T=%d" % T, dict(case, schedule=sched), {})
-        for r in res + res2:
+        # compute_xlylzl (detector position -> lab coordinates); its loop is serial today: with the serial request overridden the
+        # exploration covers the parallel version of the loop if it is ever given a pragma (also one guarded by `if (n > ...)`)
+        xl = np.full((n, 3), 1e300)
+        cen = np.array([pars["z_center"], pars["y_center"], pars["z_size"], pars["y_size"]])
+        dvec = np.array([pars["distance"], 0.0, 0.0])
+        rmat = np.ascontiguousarray(C.rmat, float)
+        V.L.vrt_ignore_serial_request(1)
+        try:
+            ref3, res3, bad3 = check_schedule_independence(V, "compute_xlylzl", [sc.copy(), fc.copy(), cen, rmat, dvec, xl, n], [], (), [xl], void=True)
+        finally:
+            V.L.vrt_ignore_serial_request(0)
+        got3 = np.frombuffer(ref3[1], float).reshape(n, 3)
+        if np.abs(got3.T - xyz).max() > 1e-9 * max(1.0, np.abs(xyz).max()):
+            sh.violation("compute_xlylzl[vrt build]:differs-from-reference", case, {"max": float(np.abs(got3.T - xyz).max())})
+        for T, sched in bad3:
+            sh.violation("compute_xlylzl:schedule-dependent:T=%d" % T, dict(case, schedule=sched), {})
+        for r in res + res2 + res3:
             sh.states += r["nodes"]
             sh.transitions += r["nodes"] - 1 + r["executions"]
             sh.count("schedule_executions", r["total_executions"])
